@@ -10,7 +10,9 @@
 //!                               call parked method / let calls go / close frame / reset / FIN-close / invalid frame /
 //!                               close frame and reset at once
 //!        wi  (mode ping) stop answering the server's pings, keep the socket open and silent until the server has
-//!            closed the session for inactivity: answer c (closed) or o (still open after the bounded wait)
+//!            closed the session for inactivity: answer c (closed) or o (still open after the bounded wait); in both cases
+//!            the client's socket stays open and silent until the end of the case (a half-open peer that never
+//!            acknowledges the close frame)
 //!   hint s<N>: a response is expected in this step, afterwards wait (bounded) until N slots are free;
 //!        a<N>: wait (bounded) until N slots are free (a response ends the wait as well)
 //! Output line: one `<status|-|T>:<avail|?>:<handlers>` per step (same format as modelrun/connguard_driver.ml).
@@ -652,7 +654,9 @@ impl Case {
 				Some(Conn::Ws(s)) => {
 					s.silent.store(true, SeqCst);
 					if s.wait_eof(wait).await {
-						s.close(false).await;
+						// the peer stays half-open: it neither acknowledges the server's close frame nor hangs up, for the
+						// rest of the case (the slot must come back all the same: the SERVER has ended this session)
+						self.zombies.push(s);
 						"c".into()
 					} else {
 						self.zombies.push(s);
